@@ -39,6 +39,13 @@ Definition IsInt3 (v : q3) : Prop := IsInt (qx v) /\ IsInt (qy v) /\ IsInt (qz v
 (* two rational points differ by a lattice vector *)
 Definition same_mod1 (u v : q3) : bool := is_int3 (q3sub u v).
 
+(* canonical representative modulo 1: reduced fraction of the fractional part; two points differ by a lattice
+   vector iff their canonical forms are identical (compared structurally - cheap) *)
+Definition qcanon (q : Q) : Q := Qred (q - inject_Z (Qfloor q)).
+Definition q3canon (v : q3) : q3 := Q3 (qcanon (qx v)) (qcanon (qy v)) (qcanon (qz v)).
+Definition qsame (a b : Q) : bool := (Qnum a =? Qnum b)%Z && (Qden a =? Qden b)%positive.
+Definition q3same (u v : q3) : bool := qsame (qx u) (qx v) && qsame (qy u) (qy v) && qsame (qz u) (qz v).
+
 (* distance to the nearest integer not larger than tol *)
 Definition qround (q : Q) : Z := Qfloor (q + (1 # 2)).
 Definition near_int (tol q : Q) : bool := Qle_bool (Qabs (q - inject_Z (qround q))) tol.
